@@ -14,8 +14,8 @@ from ..ref import IllConditioned, Violation
 from . import common
 
 PROFILES = {
-    "C04": dict(invariants=("coh", "imm"), kinds=("warm", "warm", "dup", "evict"), flips=True),
-    "C02": dict(invariants=("coh", "mass", "imm"), kinds=("warm", "evict"), flips=True),
+    "C04": dict(invariants=("coh", "imm"), kinds=("warm", "warm", "warm", "dup", "dup", "evict", "evict", "restore_flatten"), flips=True),
+    "C02": dict(invariants=("coh", "mass", "imm"), kinds=("warm", "warm", "evict", "evict", "restore_flatten"), flips=True),
     "C19": dict(invariants=("samp", "coh", "imm"), kinds=("warm", "evict", "rekey", "rekey", "restore_dict"), flips=True, profile="sample"),
     "C15": dict(invariants=("coh", "imm"), kinds=("swap", "swap", "swap", "warm"), flips=False, profile="repr"),
     "C01": dict(invariants=("prod", "imm", "coh"), kinds=("warm", "warm", "evict", "dup"), flips=True, profile="product"),
